@@ -173,13 +173,13 @@ theorem fmtRegExp_repPrint (cfg : Config) (h : RepPrintNA cfg) (e : Expr) :
 
 
 /-- the clusters S4 hands to the trie: printable, consistent graphemes with a single count each -/
-theorem rep_clusters_lit (cfg : Config) (hp : RepPrintNA cfg) (env : Env) (ws : List Str) (st : Stages)
+theorem rep_clusters_lit (cfg : Config) (hrep : cfg.rep = true) (hmr : 1 ≤ cfg.minRep) (env : Env) (ws : List Str) (st : Stages)
     (h : regExpFrom cfg env ws = .ok st) (hseg : ∀ w ∈ storedCases cfg env ws, SegOK env w)
     (hlen : ∀ w ∈ storedCases cfg env ws, (subPieces (env.segOf w)).length ≤ 1000) :
     ∀ cl ∈ st.clusters, LitS cl ∧ ∀ g ∈ cl, g.min = g.max := by
   obtain ⟨hsorted, hcl, htrie, hmin, hfirst⟩ := from_stages_shape cfg env ws st h
   change st.sorted = sortCases (storedCases cfg env ws) at hsorted
-  rw [graphemeClusters_rep cfg env _ hp.rep] at hcl
+  rw [graphemeClusters_rep cfg env _ hrep] at hcl
   rw [preClusters_eq cfg] at hcl
   have hmem : ∀ w ∈ st.sorted, w ∈ storedCases cfg env ws := fun w hw => by rw [hsorted] at hw; exact (sortCases_mem' _ w).mp hw
   intro cl hc
@@ -191,7 +191,7 @@ theorem rep_clusters_lit (cfg : Config) (hp : RepPrintNA cfg) (env : Env) (ws : 
   have hl := hlen w hww
   rw [hceq]
   have hl' : (valsOf cfg env w).length ≤ 1000 := by simpa [valsOf] using hl
-  refine ⟨convertRepetitions_lit cfg hp.minRep _ hvals hl', ?_⟩
+  refine ⟨convertRepetitions_lit cfg hmr _ hvals hl', ?_⟩
   apply convertRepetitions_counts
   intro g hg
   obtain ⟨s, _, rfl⟩ := List.mem_map.mp hg
@@ -203,7 +203,7 @@ theorem rep_final_wfs (cfg : Config) (hp : RepPrint cfg) (env : Env) (ws : List 
     (hlen : ∀ w ∈ storedCases cfg env ws, (subPieces (env.segOf w)).length ≤ 1000) : st.finalAst.WFS := by
   obtain ⟨hsorted, hcl, htrie, hmin, hfirst⟩ := from_stages_shape cfg env ws st h
   have hfinal := from_final_anchored cfg env ws st h hp.anch
-  have hall := rep_clusters_lit cfg hp.toNA env ws st h hseg hlen
+  have hall := rep_clusters_lit cfg hp.rep hp.minRep env ws st h hseg hlen
   obtain ⟨m, hm, hwfs⟩ := min_struct_lit cfg st.clusters (fun cl hc => (hall cl hc).2) (fun cl hc => (hall cl hc).1)
   rw [← htrie, hmin] at hm
   cases hm
@@ -212,12 +212,12 @@ theorem rep_final_wfs (cfg : Config) (hp : RepPrint cfg) (env : Env) (ws : List 
 
 /-- **whichever expression `RegExp::from` keeps under `-r` is well-formed for printing** (any anchors: the first candidate, the expression
 of the unminimised trie, or the plain alternation of the converted clusters) -/
-theorem rep_final_wfs_na (cfg : Config) (hp : RepPrintNA cfg) (env : Env) (ws : List Str) (st : Stages)
+theorem rep_final_wfs_na (cfg : Config) (hrep : cfg.rep = true) (hmr : 1 ≤ cfg.minRep) (env : Env) (ws : List Str) (st : Stages)
     (h : regExpFrom cfg env ws = .ok st) (hseg : ∀ w ∈ storedCases cfg env ws, SegOK env w)
     (hlen : ∀ w ∈ storedCases cfg env ws, (subPieces (env.segOf w)).length ≤ 1000) (hws : ws ≠ []) : st.finalAst.WFS := by
   obtain ⟨hsorted, hcl, htrie, hmin, hfirst⟩ := from_stages_shape cfg env ws st h
   change st.sorted = sortCases (storedCases cfg env ws) at hsorted
-  have hall := rep_clusters_lit cfg hp env ws st h hseg hlen
+  have hall := rep_clusters_lit cfg hrep hmr env ws st h hseg hlen
   rcases from_final_three cfg env ws st h with hf | hf | hf
   · obtain ⟨m, hm, hwfs⟩ := min_struct_lit cfg st.clusters (fun cl hc => (hall cl hc).2) (fun cl hc => (hall cl hc).1)
     rw [← htrie, hmin] at hm
@@ -249,7 +249,7 @@ theorem rep_final_wfs_na (cfg : Config) (hp : RepPrintNA cfg) (env : Env) (ws : 
       exact (hall c hc).1
     · intro hc
       have hcn : st.clusters = [] := by simpa using hc
-      rw [graphemeClusters_rep cfg env _ hp.rep, preClusters_eq cfg] at hcl
+      rw [graphemeClusters_rep cfg env _ hrep, preClusters_eq cfg] at hcl
       rw [hcl] at hcn
       have hs0 : st.sorted = [] := by simpa using hcn
       rw [hsorted] at hs0
@@ -296,7 +296,7 @@ theorem preCluster_tokens (cfg : Config) (env : Env) (w : Str) (hseg : SegOK env
   rw [this _ hok.1, ← hw]
 
 /-- the stored test case `t` is carried: whatever its atoms denote is spelled by a word of the kept expression -/
-theorem rep_carried (cfg : Config) (hp : RepPrintNA cfg) (env : Env) (ws : List Str) (st : Stages)
+theorem rep_carried (cfg : Config) (hrep : cfg.rep = true) (hmr : 1 ≤ cfg.minRep) (env : Env) (ws : List Str) (st : Stages)
     (h : regExpFrom cfg env ws = .ok st) (hseg : ∀ w ∈ storedCases cfg env ws, SegOK env w)
     (t : Str) (ht : t ∈ storedCases cfg env ws) (hne : t ≠ []) (s : Str) (hs : atomsDen cfg.ci (t.map (convAtom cfg)) s) :
     st.finalAst.strLangR cfg.ci s := by
@@ -308,7 +308,7 @@ theorem rep_carried (cfg : Config) (hp : RepPrintNA cfg) (env : Env) (ws : List 
   have hpc : (subPieces (env.segOf t)).map (fun p => Grapheme.ofStr (p.flatMap (convChar cfg))) ∈ preClusters cfg env st.sorted := by
     rw [preClusters_eq cfg]
     exact List.mem_map_of_mem (f := fun w => (subPieces (env.segOf w)).map (fun p => Grapheme.ofStr (p.flatMap (convChar cfg)))) hts
-  obtain ⟨_, hexp, _, _⟩ := rep_pipeline_sound cfg env ws st h hp.rep hsegp _ hpc
+  obtain ⟨_, hexp, _, _⟩ := rep_pipeline_sound cfg env ws st h hrep hsegp _ hpc
   have hcounts : ∀ g ∈ convertRepetitions cfg ((subPieces (env.segOf t)).map (fun p => Grapheme.ofStr (p.flatMap (convChar cfg)))),
       g.min = g.max := by
     apply convertRepetitions_counts
@@ -327,7 +327,7 @@ theorem rep_carried (cfg : Config) (hp : RepPrintNA cfg) (env : Env) (ws : List 
     cases t with
     | nil => exact hne rfl
     | cons c r => simp [atomsDen] at hs
-  obtain ⟨ls, hls, hcar⟩ := rep_final_expr cfg env ws st h hp.rep hsegp _ hpc hcne
+  obtain ⟨ls, hls, hcar⟩ := rep_final_expr cfg env ws st h hrep hsegp _ hpc hcne
   exact ⟨ls, hls, carriesL_spellsA cfg.ci hcar s hsp⟩
 
 /-- **C01 with `-r`, end to end on the model, all inputs** (any class options, with or without `-i`): the returned text is accepted by
@@ -343,7 +343,7 @@ theorem rep_end_to_end (cfg : Config) (hp : RepPrint cfg) (env : Env) (ws : List
   have hwfs := rep_final_wfs cfg hp env ws st h hseg hlen
   rw [fmtRegExp_repPrint cfg hp.toNA]
   obtain ⟨P, hP, hm⟩ := printed_exactAR cfg.ci cfg.cap cfg.esc cfg.noStart cfg.noEnd st.finalAst hwfs s hsc
-  exact ⟨P, hP, hm.mpr (rep_carried cfg hp.toNA env ws st h hseg t ht hne s hs)⟩
+  exact ⟨P, hP, hm.mpr (rep_carried cfg hp.rep hp.minRep env ws st h hseg t ht hne s hs)⟩
 
 /-- **C01 with `-r`, any anchors**: the same when both anchors are disabled, whichever of its three candidates `RegExp::from` keeps -/
 theorem rep_end_to_end_na (cfg : Config) (hp : RepPrintNA cfg) (env : Env) (ws : List Str) (st : Stages)
@@ -357,17 +357,17 @@ theorem rep_end_to_end_na (cfg : Config) (hp : RepPrintNA cfg) (env : Env) (ws :
     rw [e] at ht
     unfold storedCases lowerCases at ht
     split at ht <;> simp at ht
-  have hwfs := rep_final_wfs_na cfg hp env ws st h hseg hlen hws
+  have hwfs := rep_final_wfs_na cfg hp.rep hp.minRep env ws st h hseg hlen hws
   rw [fmtRegExp_repPrint cfg hp]
   obtain ⟨P, hP, hm⟩ := printed_exactAR cfg.ci cfg.cap cfg.esc cfg.noStart cfg.noEnd st.finalAst hwfs s hsc
-  exact ⟨P, hP, hm.mpr (rep_carried cfg hp env ws st h hseg t ht hne s hs)⟩
+  exact ⟨P, hP, hm.mpr (rep_carried cfg hp.rep hp.minRep env ws st h hseg t ht hne s hs)⟩
 
 /-- **validity with `-r`, any anchors**: the returned text is accepted by the model of `Regex::new` for every non-empty list of test cases -/
 theorem rep_valid_na (cfg : Config) (hp : RepPrintNA cfg) (env : Env) (ws : List Str) (st : Stages)
     (h : regExpFrom cfg env ws = .ok st) (hseg : ∀ w ∈ storedCases cfg env ws, SegOK env w)
     (hlen : ∀ w ∈ storedCases cfg env ws, (subPieces (env.segOf w)).length ≤ 1000) (hws : ws ≠ []) :
     ∃ P, Spec.parse (fmtRegExp cfg st.finalAst) = some (⟨cfg.ci, false⟩, P) := by
-  have hwfs := rep_final_wfs_na cfg hp env ws st h hseg hlen hws
+  have hwfs := rep_final_wfs_na cfg hp.rep hp.minRep env ws st h hseg hlen hws
   rw [fmtRegExp_repPrint cfg hp]
   obtain ⟨P, hP, _⟩ := printed_exactAR cfg.ci cfg.cap cfg.esc cfg.noStart cfg.noEnd st.finalAst hwfs [] (by simp)
   exact ⟨P, hP⟩
